@@ -22,7 +22,7 @@ LEVEL = "model_checking"
 RULE = (
     "(a) all tables of CT(2,2,2) and CT(3,2,1) (thorough: + CT(2,3,1), CT(2,2,3), G1(5,2) x 81 with ASSD matching) x UNMATCHED x {one-to-one threshold matcher: every IoU "
     "threshold class without decision + the most lenient class x decision in {none, Dice .5, ASSD .5, ASSD 0, IoU at every class}; many-to-one and merge matcher at the most lenient and the "
-    "median class x decision in {none, Dice .5, ASSD .5}} and x MATCHED x the same decisions; SEMANTIC on G2(2,2,2) x 27 refs x {default, cc3d} x 4 threshold classes x 3 decisions; "
+    "median class x decision in {none, Dice .5, ASSD .5}} and x MATCHED x the same decisions (also with an unused matcher of the decision's metric and an unused approximator configured); SEMANTIC on G2(2,2,2) x 27 refs x {default, cc3d} x 4 threshold classes x 3 decisions; "
     "(b) all PanopticaResult(num_ref, num_pred in 0..4, tp <= min, lists of length tp over {0,.25,.5,1} / {0,.5,2}) x 5 empty-list-std values. "
     "non-trivial = at least one instance fails the decision threshold, or a many-to-one/merge assignment merged a group, or a direct result with >= 2 distinct values; distinct by (arrays, configuration)"
 )
@@ -179,6 +179,10 @@ def _configs(kind, pred, ref, acc):
     asg = sorted(mm.matched_assignment())
     for dec in [None, ["DSC", 0.5], ["ASSD", 0.5], ["ASSD", 0.0], ["DSC", 1.0]] + [["IOU", t] for t in e2e.guarded_thresholds(mm, "IOU", asg, acc, shape)]:
         out.append({"itype": "MATCHED", "matcher": None, "backend": "none", "decision": dec})
+        # matched input with a (then unused) matcher and approximator configured, as users who pass every component do
+        if dec is not None:
+            for um in (["thr", dec[0], 0.5, False], ["merge", dec[0], dec[1]]):
+                out.append({"itype": "MATCHED", "matcher": um, "backend": "default", "decision": dec})
     return out
 
 
